@@ -545,6 +545,17 @@ func srcSide(r *mon.Run) {
 				sf.marks = append(sf.marks, len(f))
 			}
 			files = append(files, sf)
+			if arm && s <= 50 {
+				// the same armored file behind leading white space that is not
+				// just empty lines (CRLF blank lines, lines of blanks and tabs):
+				// every offset of it is a fault position
+				lead := "\r\n  \t \r\n\r\n    \n\t\n"
+				wf := sf
+				wf.name += " behind leading white-space lines"
+				wf.file = append([]byte(lead), f...)
+				wf.marks = nil
+				files = append(files, wf)
+			}
 		}
 	}
 	type job struct {
